@@ -30,16 +30,108 @@ var substs = []subst{
 	{"provider/route/json.go", map[string]string{"os": "verif/harness/simfs", "io/ioutil": "verif/harness/simfs"}},
 }
 
+// atomicYield lists files in which every statement that calls sync/atomic gets a schedule point in front of it
+// (inserted at build time, nothing changes in /repo): identifier and counter allocation, where a read-modify-write that
+// is no longer one atomic operation only shows when another task runs between the read and the write.
+var atomicYield = []string{"media/cid.go", "media/consumptions.go", "stats/conns.go", "provider/security/id.go"}
+
+const simhookPath = "github.com/cnotch/ipchub/utils/simhook"
+
+// callsAtomic reports whether stmt itself (not a nested block or function literal) calls sync/atomic.
+func callsAtomic(stmt ast.Stmt) bool {
+	found := false
+	ast.Inspect(stmt, func(n ast.Node) bool {
+		switch x := n.(type) {
+		case *ast.BlockStmt, *ast.FuncLit:
+			return n == ast.Node(stmt)
+		case *ast.CallExpr:
+			if sel, ok := x.Fun.(*ast.SelectorExpr); ok {
+				if id, ok := sel.X.(*ast.Ident); ok && id.Name == "atomic" {
+					found = true
+				}
+			}
+		}
+		return !found
+	})
+	return found
+}
+
+func yieldStmt(site string) ast.Stmt {
+	return &ast.ExprStmt{X: &ast.CallExpr{
+		Fun:  &ast.SelectorExpr{X: ast.NewIdent("simhook"), Sel: ast.NewIdent("Y")},
+		Args: []ast.Expr{&ast.BasicLit{Kind: token.STRING, Value: strconv.Quote(site)}},
+	}}
+}
+
+// injectAtomicYields inserts the schedule points and makes sure simhook is imported; returns how many were inserted.
+func injectAtomicYields(fset *token.FileSet, f *ast.File, rel string) int {
+	n := 0
+	fix := func(list []ast.Stmt) []ast.Stmt {
+		var out []ast.Stmt
+		for _, st := range list {
+			if callsAtomic(st) {
+				out = append(out, yieldStmt(fmt.Sprintf("atomic:%s:%d", rel, fset.Position(st.Pos()).Line)))
+				n++
+			}
+			out = append(out, st)
+		}
+		return out
+	}
+	ast.Inspect(f, func(nd ast.Node) bool {
+		switch x := nd.(type) {
+		case *ast.BlockStmt:
+			x.List = fix(x.List)
+		case *ast.CaseClause:
+			x.Body = fix(x.Body)
+		case *ast.CommClause:
+			x.Body = fix(x.Body)
+		}
+		return true
+	})
+	if n > 0 {
+		have := false
+		for _, im := range f.Imports {
+			if p, _ := strconv.Unquote(im.Path.Value); p == simhookPath {
+				have = true
+			}
+		}
+		if !have {
+			spec := &ast.ImportSpec{Path: &ast.BasicLit{Kind: token.STRING, Value: strconv.Quote(simhookPath)}}
+			for _, d := range f.Decls {
+				if g, ok := d.(*ast.GenDecl); ok && g.Tok == token.IMPORT {
+					g.Specs = append(g.Specs, spec)
+					if !g.Lparen.IsValid() {
+						g.Lparen = g.Pos()
+					}
+					have = true
+					break
+				}
+			}
+			if !have {
+				f.Decls = append([]ast.Decl{&ast.GenDecl{Tok: token.IMPORT, Specs: []ast.Spec{spec}}}, f.Decls...)
+			}
+		}
+	}
+	return n
+}
+
 // buildOverlay rewrites the import specs of the listed files of the *current*
 // working tree of repo into dir and returns the overlay file path.
 func buildOverlay(repo, dir string) (string, error) {
 	replace := map[string]string{}
-	for _, s := range substs {
+	all := append([]subst(nil), substs...)
+	for _, rel := range atomicYield {
+		all = append(all, subst{file: rel})
+	}
+	for _, s := range all {
 		src := filepath.Join(repo, s.file)
 		fset := token.NewFileSet()
 		f, err := parser.ParseFile(fset, src, nil, parser.ParseComments)
 		if err != nil {
 			return "", fmt.Errorf("overlay: %s does not parse: %v", s.file, err)
+		}
+		if s.imps == nil {
+			injectAtomicYields(fset, f, s.file) // a file without atomics any more is simply left as it is
 		}
 		hit := 0
 		for _, im := range f.Imports {
